@@ -64,7 +64,7 @@ function E(v) {
 }
 function HAS(o, k) { return (typeof o.hasOwnProperty === "function") ? o.hasOwnProperty(k) : HOP.call(o, k); }
 function ISP(p, o) { return (typeof p.isPrototypeOf === "function") ? p.isPrototypeOf(o) : IPO.call(p, o); }
-function OBS(o, ks, ps, wj) {
+function OBS(o, ks, ps, mode) {
   var r = [], i, k, s, a, t;
   for (i = 0; i < ks.length; i++) {
     k = ks[i];
@@ -72,19 +72,21 @@ function OBS(o, ks, ps, wj) {
     try { r.push((k in o) ? "T" : "F"); } catch (e) { r.push("throw"); }
     try { r.push(HAS(o, k) ? "T" : "F"); } catch (e) { r.push("throw"); }
   }
-  try { a = Object.keys(o); s = ""; for (i = 0; i < a.length; i++) { s += "|" + E(a[i]); } r.push(s); } catch (e) { r.push("throw"); }
-  try { a = Object.values(o); s = ""; for (i = 0; i < a.length; i++) { s += "|" + E(a[i]); } r.push(s); } catch (e) { r.push("throw"); }
-  try { a = Object.entries(o); s = ""; for (i = 0; i < a.length; i++) { s += "|" + E(a[i][0]) + "=" + E(a[i][1]) + (a[i].length === 2 ? "" : "#" + a[i].length); } r.push(s); } catch (e) { r.push("throw"); }
-  try { s = ""; for (k in o) { s += "|" + E(k); } r.push(s); } catch (e) { r.push("throw"); }
-  try { r.push(E(Object.getPrototypeOf(o))); } catch (e) { r.push("throw"); }
-  try { r.push((o instanceof F0) ? "T" : "F"); } catch (e) { r.push("throw"); }
-  try { r.push((o instanceof F1) ? "T" : "F"); } catch (e) { r.push("throw"); }
-  try { r.push((o instanceof F2) ? "T" : "F"); } catch (e) { r.push("throw"); }
-  try { r.push((o instanceof F3) ? "T" : "F"); } catch (e) { r.push("throw"); }
-  for (i = 0; i < ps.length; i++) {
-    try { r.push(ISP(ps[i], o) ? "T" : "F"); } catch (e) { r.push("throw"); }
+  if (mode & 2) {
+    try { a = Object.keys(o); s = ""; for (i = 0; i < a.length; i++) { s += "|" + E(a[i]); } r.push(s); } catch (e) { r.push("throw"); }
+    try { a = Object.values(o); s = ""; for (i = 0; i < a.length; i++) { s += "|" + E(a[i]); } r.push(s); } catch (e) { r.push("throw"); }
+    try { a = Object.entries(o); s = ""; for (i = 0; i < a.length; i++) { s += "|" + E(a[i][0]) + "=" + E(a[i][1]) + (a[i].length === 2 ? "" : "#" + a[i].length); } r.push(s); } catch (e) { r.push("throw"); }
+    try { s = ""; for (k in o) { s += "|" + E(k); } r.push(s); } catch (e) { r.push("throw"); }
+    try { r.push(E(Object.getPrototypeOf(o))); } catch (e) { r.push("throw"); }
+    try { r.push((o instanceof F0) ? "T" : "F"); } catch (e) { r.push("throw"); }
+    try { r.push((o instanceof F1) ? "T" : "F"); } catch (e) { r.push("throw"); }
+    try { r.push((o instanceof F2) ? "T" : "F"); } catch (e) { r.push("throw"); }
+    try { r.push((o instanceof F3) ? "T" : "F"); } catch (e) { r.push("throw"); }
+    for (i = 0; i < ps.length; i++) {
+      try { r.push(ISP(ps[i], o) ? "T" : "F"); } catch (e) { r.push("throw"); }
+    }
   }
-  if (wj) {
+  if (mode & 1) {
     try { t = JSON.stringify(o); r.push(t === undefined ? "u" : "J" + t); } catch (e) { r.push("throw"); }
   }
   return r;
@@ -274,14 +276,56 @@ def _rng_for(st, index):
     return random.Random(zlib.crc32(json.dumps(st, sort_keys=True).encode()) * 1000003 + index)
 
 
-def observation_plan(model, st, index, full=False):
-    """[(target spec, keys, proto specs, want_json)] for the state after `st`."""
+def guarded_key(model, o, key, guards):
+    """Is the observation of o[key] excluded by an active known-finding guard?"""
+    if o.kind == "function" and "c08.function_object" in guards:
+        # functions have no [[Prototype]]: only their own properties are observed
+        return model.find(o, key)[0] not in (o, None)
+    if "c08.nullproto_fallback" in guards and key in ("toString", "hasOwnProperty"):
+        # objects that do not inherit from Object.prototype still answer to these two
+        return not model.has(o, key)
+    return False
+
+
+def observation_plan(model, st, index, full=False, guards=()):
+    """[(target spec, keys, proto specs, mode)] for the state after `st`.
+    mode: bit 1 = JSON.stringify, bit 2 = enumerations, getPrototypeOf,
+    instanceof, isPrototypeOf."""
     rng = _rng_for(st, index)
     targets = model.targets()
     step_key = None
     if "key" in st:
         step_key = st["key"] if isinstance(st["key"], str) else model.key_from_form(st["key"])
     expressible = [spec for spec, _ in targets if spec[0] != "F"] + [["OP"]]
+    fn_limited = "c08.function_object" in guards
+    if not full:
+        # between the full observations: the objects the step touched, everything
+        # on their chains, everything that inherits from them, and two others
+        touched = []
+        for sp in ([st["o"]] if "o" in st else []) + ([["slot", st["dst"]]] if "dst" in st else []):
+            t = model.target(sp)
+            if t is not None:
+                touched.append(t)
+        if "F" in st:
+            touched.append(model.ctors[st["F"]])
+            t = model.target(["P", st["F"]])
+            if t is not None:
+                touched.append(t)
+        related = set()
+        for t in touched:
+            c = t
+            while c is not None:
+                related.add(id(c))
+                c = c.proto
+        near, far = [], []
+        for spec, o in targets:
+            c, hit = o, id(o) in related
+            while c is not None and not hit:
+                hit = any(c is t for t in touched)
+                c = c.proto
+            (near if hit else far).append((spec, o))
+        rng.shuffle(far)
+        targets = near + far[:2]
     plan = []
     for spec, o in targets:
         if full:
@@ -300,6 +344,11 @@ def observation_plan(model, st, index, full=False):
             for k in rng.sample(KEYS, 3):
                 if k not in keys:
                     keys.append(k)
+        mode = 3
+        if o.kind == "function":
+            # (recorded finding: functions are not enumerable objects either)
+            mode = 0 if fn_limited else 2
+        keys = [k for k in keys if not guarded_key(model, o, k, guards)]
         protos = []
         c = o.proto
         while c is not None:
@@ -310,15 +359,14 @@ def observation_plan(model, st, index, full=False):
         others = [ps for ps in expressible if ps not in protos]
         rng.shuffle(others)
         protos = protos[:4] + others[: (len(others) if full else 2)]
-        want_json = o.kind != "function"
-        plan.append((spec, keys, protos, want_json))
+        plan.append((spec, keys, protos, mode))
     return plan
 
 
 def render_observation(plan):
     parts = []
-    for spec, keys, protos, wj in plan:
-        parts.append("OBS(%s, [%s], [%s], %d)" % (js_val(spec), ", ".join(G.js_str(k) for k in keys), ", ".join(js_val(p) for p in protos), 1 if wj else 0))
+    for spec, keys, protos, mode in plan:
+        parts.append("OBS(%s, [%s], [%s], %d)" % (js_val(spec), ", ".join(G.js_str(k) for k in keys), ", ".join(js_val(p) for p in protos), mode))
     return "[" + ", ".join(parts) + "]"
 
 
@@ -700,7 +748,16 @@ def call_program(kind, form, tname):
         G.var("res"),
     ]
     body += _define(kind)
-    body += [G.log("len", G.dot(G.id_("f"), "length")), G.log("name", G.dot(G.id_("f"), "name"))]
+    if form == "props":
+        # properties of the function itself: one cell per kind
+        body += [
+            G.log("len", G.dot(G.id_("f"), "length")),
+            G.log("name", G.dot(G.id_("f"), "name")),
+            G.log("typeof", G.un("typeof", G.id_("f"))),
+            G.log("hasproto", G.bin_("!==", G.dot(G.id_("f"), "prototype"), G.UNDEF)),
+            G.try_([G.log("pctor", G.bin_("===", G.dot(G.dot(G.id_("f"), "prototype"), "constructor"), G.id_("f")))], ("e", [G.log("pctor", G.s_("throw"))])),
+        ]
+        return {"body": body, "sub": "call", "id": "%s|%s|%s" % (kind, form, tname), "tags": [kind, form, tname]}
     body += [G.expr(G.assign(G.dot(G.id_("O"), "f"), G.id_("f")))]
     body += [G.try_(_form(form, kind, tname) + [G.log("done", G.num(1))], ("e", [G.log("call-throw", G.num(1))]))]
     body += _tail()
@@ -743,6 +800,7 @@ def accessor_program(which, form):
 def call_programs():
     out = []
     for kind in KINDS:
+        out.append(call_program(kind, "props", "object"))
         for form in FORMS_PLAIN:
             out.append(call_program(kind, form, "object"))
         for form in FORMS_T:
